@@ -16,7 +16,7 @@ import tempfile
 import time
 from concurrent.futures import ThreadPoolExecutor
 
-from . import env
+from . import env, reach
 from .checks import load
 
 EVIDENCE_DIR = os.path.join(env.VERIF, "evidence")
@@ -74,7 +74,7 @@ def run_job(check_id, job, workdir, timeout):
 
 def merge(results):
     m = {"evaluations": 0, "signatures": set(), "samples": [], "violations": {}, "counters": {},
-         "observations": {}, "harness_errors": [], "inconclusive": [], "nixio_file": None}
+         "observations": {}, "harness_errors": [], "inconclusive": [], "nixio_file": None, "reach": {}}
     for r in results:
         res = r["result"]
         if res is None:
@@ -84,6 +84,7 @@ def merge(results):
             m["inconclusive"].append("shard %s: rc=%s" % (r["shard"], r["rc"]))
         m["nixio_file"] = res.get("nixio_file") or m["nixio_file"]
         m["evaluations"] += res["evaluations"]
+        reach.merge(m["reach"], res.get("reach"))
         m["signatures"].update(res["signatures"])
         for s in res["samples"]:
             if len(m["samples"]) < 5:
@@ -141,6 +142,8 @@ def write_evidence(mod, tier, seed, m, wall, known, new, verdict, extra=None):
         cov["exhaustive"] = True
     if extra:
         cov.update(extra)
+    if m.get("reach"):
+        cov["reach"] = reach.summarise(m["reach"], env.REPO, reach.anchors_of(env.VERIF, mod.ID))
     ev = {"property_id": mod.ID, "tier": tier, "seed": int(seed), "level": mod.LEVEL, "coverage": cov,
           "assumptions": list(mod.ASSUMPTIONS), "wall_s": round(wall, 2), "violations": len(new)}
     path = os.path.join(EVIDENCE_DIR, "%s.json" % mod.ID)
